@@ -264,6 +264,37 @@ func init() {
 					return
 				}
 			}
+			// trees replicated onto system directories: a root file system image at "/", trees at directories of the
+			// filesystem / logrotate packages, with and without owner, alone and next to other entries
+			sysT := []model.Entry{
+				{Src: "rootfs", Dst: "/", Type: "tree"},
+				{Src: "rootfs", Dst: "/", Type: "tree", Owner: "app", Group: "grp"},
+				{Src: "rootfs/etc", Dst: "/etc", Type: "tree", Owner: "app", Group: "grp"},
+				{Src: "rootfs/etc", Dst: "/etc/", Type: "tree"},
+				{Src: "rootfs/etc/logrotate.d", Dst: "/etc/logrotate.d", Type: "tree", Owner: "app", Group: "grp"},
+				{Src: "rootfs/var/lib/logrotate", Dst: "/var/lib/logrotate", Type: "tree", Mode: 0o750},
+				{Src: "rootfs/usr/share/licenses", Dst: "/usr/share/licenses", Type: "tree"},
+				{Src: "rootfs/usr", Dst: "/usr", Type: "tree"},
+				{Src: "rootfs/opt", Dst: "/opt", Type: "tree", Owner: "app"},
+				{Src: "tree", Dst: "/usr/lib/.build-id", Type: "tree", Owner: "app"},
+				{Src: "tree", Dst: "/usr/local/share/app", Type: "tree", Owner: "app"},
+				{Src: "rootfs", Dst: "/srv/image", Type: "tree"},
+			}
+			for _, s := range []Setting{sets[0], {Name: "umask=077", Umask: 0o077}, {Name: "mtime=unset", MTime: "unset"}} {
+				for _, e := range sysT {
+					if !yield(C01Case{Setting: s, List: []model.Entry{e}}) {
+						return
+					}
+					for _, o := range []model.Entry{{Src: "etc/app.conf", Dst: "/etc/other.conf", Type: "config"}, {Dst: "/var/lib/logrotate/extra", Type: "dir"}, {Src: "bin/app", Dst: "/usr/bin/app2"}} {
+						if !yield(C01Case{Setting: s, List: []model.Entry{e, o}}) {
+							return
+						}
+						if !yield(C01Case{Setting: s, List: []model.Entry{o, e}}) {
+							return
+						}
+					}
+				}
+			}
 			// pairs under every setting (compression settings: pairs of untagged templates only)
 			for _, s := range sets {
 				for i, a := range all {
